@@ -68,6 +68,9 @@ func c10Atoms() []string {
 		// Unicode white space, raw and as YAML escapes (no-break space, next line, line / paragraph separator, ideographic space ...)
 		"- command: \"a\\_b\\Nc\\Ld\\Pe\"\n  description: \"x\u00a0y\u3000z\"\n  keywords: [\"k\u2003w\", \"\u205f\"]\n",
 		"- command: nb\u00a0sp\u1680og\u202fnn\n  description: \u2028\u2029\n",
+		// entries without a command text that declare platforms (foreign to the pinned host, unknown, mixed case)
+		"- command: ''\n  description: compress files with zip\n  keywords: [zip, a]\n  platform: [windows]\n",
+		"- description: zip without any command x\n  keywords: [zip, x]\n  platform: [Windows, macos]\n- command: \"  \"\n  description: blank zip a\n  platform: [freebsd]\n  tags: [dup]\n",
 	}
 }
 
@@ -80,6 +83,8 @@ func c10Queries() []string {
 		"zi", "zip", "x", "a", "\x00", "zi\x00", "\xff", strings.Repeat("a", 1000), string(mixed), "?", "-", "...", "İ", "ß", "\U0001F600",
 		"a b", " ", "command", "multi line", "\t", "\\", "[", "(?i)a", "zip compress files", "a\x00b", "dup", "\x1b[31m", "",
 		"a\u00a0b", "\u3000", "x\u2003y z", "\u0085", "zip\u2028compress", "\u200b", "a\u202fb\u205fc\u1680d",
+		// the NLP stage's phrase clues behind bytes whose lower-casing changes their length (invalid UTF-8, U+023A / U+023E)
+		"\xff see the zip without opening", "\xff\xfe\xfd zip WITHOUT EDITING", "\u023a\u023e\u023a\u023e x without opening", "without opening \xff", "\xffwithout editing",
 	}
 }
 
@@ -349,7 +354,7 @@ func c10Run(c *lib.Ctx) {
 func init() {
 	lib.Register(&lib.Check{
 		ID: "C10", Level: "model_checking",
-		Rule:      "every concatenation of <=2 (quick) / <=3 (thorough) atoms of a 78-atom YAML/binary grammar (entries with right and wrong field types, NUL / control / invalid UTF-8 / BOM bytes, anchors, aliases, merge keys, a 9-level alias bomb, tags, truncated quotes, block scalars, duplicate keys, a 66 KB scalar, 1000-deep nesting, documents, non-entries, Unicode white space raw and as YAML escapes) as database file + missing paths under 6 names (.yml, .yaml, names containing 'yaml:', 'unmarshal', 'permission denied', a missing directory) + a directory path; load classified against yaml.v3's own decode of the same bytes (loads iff it decodes as a list of entries; parse error otherwise; not-found for a missing file); every loaded database searched with 35 hostile queries (incl. Unicode white space of every class) x 8 option corners (zero value, negative and huge limits, thresholds, non-finite-free boosts incl. 0 / negative / 1e300, odd platforms) through SearchUniversal, Search, SearchWithPipelineOptions, SearchWithOptions, SearchWithFuzzy, SearchWithNLP, the cached wrapper, GetSuggestions and the recovery searches; panic, step-budget (20 s watchdog) and allocation oracles. evaluations = loads + search calls; non-trivial = files that loaded and were searched",
+		Rule:      "every concatenation of <=2 (quick) / <=3 (thorough) atoms of an 80-atom YAML/binary grammar (entries with right and wrong field types, entries without a command text that declare foreign / unknown platforms, NUL / control / invalid UTF-8 / BOM bytes, anchors, aliases, merge keys, a 9-level alias bomb, tags, truncated quotes, block scalars, duplicate keys, a 66 KB scalar, 1000-deep nesting, documents, non-entries, Unicode white space raw and as YAML escapes) as database file + missing paths under 6 names (.yml, .yaml, names containing 'yaml:', 'unmarshal', 'permission denied', a missing directory) + a directory path; load classified against yaml.v3's own decode of the same bytes (loads iff it decodes as a list of entries; parse error otherwise; not-found for a missing file); every loaded database searched with 40 hostile queries (incl. Unicode white space of every class, and the NLP phrase clues behind bytes whose lower-casing changes length) x 8 option corners (zero value, negative and huge limits, thresholds, non-finite-free boosts incl. 0 / negative / 1e300, odd platforms) through SearchUniversal, Search, SearchWithPipelineOptions, SearchWithOptions, SearchWithFuzzy, SearchWithNLP, the cached wrapper, GetSuggestions and the recovery searches; panic, step-budget (20 s watchdog) and allocation oracles. evaluations = loads + search calls; non-trivial = files that loaded and were searched",
 		Assume:    []string{"yaml.v3's decoder defines 'decodes as a list of command entries'", "step budget 20 s per call stands for 'bounded time' (slowest observed call is milliseconds)"},
 		QuickSecs: 200, ThorSecs: 2400,
 		Run: c10Run,
